@@ -36,6 +36,8 @@ Definition keys {V} (m : list (string * V)) : list string := map fst m.
 Definition mem (s : string) (l : list string) : bool := existsb (String.eqb s) l.
 Definition subset (a b : list string) : bool := forallb (fun x => mem x b) a.
 Definition set_eqb (a b : list string) : bool := subset a b && subset b a.
+Fixpoint dedup_s (l : list string) : list string :=
+  match l with [] => [] | x :: r => if mem x r then dedup_s r else x :: dedup_s r end.
 Definition opt_list {A} (o : option A) : list A := match o with Some a => [a] | None => [] end.
 Definition lenZ {A} (l : list A) : Z := Z.of_nat (List.length l).
 
@@ -103,5 +105,6 @@ Record vcfg := {
   f_no_unwrap_panic : bool;    (* requested_attrs.get(..).unwrap() replaced by an error *)
   f_pred_range : bool;         (* predicates whose threshold overflows i32 in the crate are refused *)
   f_w3c_pred_cv : bool;        (* W3C predicate names compared normalised *)
-  f_group_unrevealed : bool    (* legacy: a restricted group referent may be unrevealed *)
+  f_group_unrevealed : bool;   (* legacy: a restricted group referent may be unrevealed *)
+  f_group_keys : bool          (* legacy: a revealed group shows exactly the requested names *)
 }.
